@@ -18,7 +18,9 @@ def run(tier, seed, replay=None):
             CC.named_stream(ck, 'contain')
         if replay is None or replay.get('case', {}).get('obs') == 'gclass':
             CC.gclass_stream(ck)
-        if replay is not None and replay.get('case', {}).get('obs') in ('named', 'gclass'):
+        if replay is None or replay.get('case', {}).get('obs') == 'corner':
+            CC.corner_stream(ck)
+        if replay is not None and replay.get('case', {}).get('obs') in ('named', 'gclass', 'corner'):
             cases.clear()
     return CC.run('C08', tier, seed, replay, PROPS, judge, extra_streams=extra,
                   rule_extra='; zoo: every public name of typing / collections.abc, bare and subscripted, non-types, strings, TypeVars, '
